@@ -17,7 +17,7 @@ RULE = ("every scenario is run twice on the real endpoints (key 901): 1 identica
         "transmitted at least 8 datagrams and (variants 1, 2, 3) the compared streams are non-empty")
 
 
-def gen(rng, n):
+def gen(rng, n, twin=None):
     cases = []
     for i in range(n):
         d = S.base(rng, small=rng.chance(2, 3))
@@ -79,10 +79,20 @@ def gen(rng, n):
         if min(d["WRITE_CHUNK"], d["READ_MAX"]) < 100 and d["STREAM_BYTES"] > 3000:
             d["STREAM_BYTES"] = 3000    # byte-sized reads / writes: keep the APP record volume down
         d["TWIN"] = 1 + (i % 4) if not rng.chance(1, 6) else rng.range(1, 4)
+        if twin is not None:
+            d["TWIN"] = twin
         # bound every run in virtual time: a connection that never goes quiet (a mutant answering every poll) must
         # not produce an unbounded trace (the simulator's own bound is 200_000 steps per run, i.e. millions of
         # records); variant 3 multiplies the steps, so it gets the tightest bound
-        cap = 4_000_000
+        cap = 1_500_000 if d["DELAY_MIN"] > 1000 else 800_000
+        if d.get("ZERO_RTT"):
+            cap = 2_200_000
+        if d.get("LOSS", 0) == 1000:
+            cap = 3_500_000             # nothing is ever delivered: only PTO back-off and the idle timeout run
+        if d.get("CLOSE_AT", 0) > 1_000_000:
+            d["CLOSE_AT"] = 1_000_000
+        if d.get("LOSS", 0) != 1000 and d.get("IDLE_MS", 0) > 1000:
+            d["IDLE_MS"] = rng.choice([300, 1000])
         if d["TWIN"] == 3 and rng.chance(2, 3):
             # keep most variant-3 workloads below the pacer's burst capacity (10 datagrams): the comparison then
             # covers the whole run instead of stopping when the Pacing timer is first armed
@@ -91,8 +101,8 @@ def gen(rng, n):
             d["ECHO_BYTES"] = min(d.get("ECHO_BYTES", 0), 1000)
             d.pop("PACING_BPS", None)
             d["NDGRAM"] = min(d.get("NDGRAM", 0), 3)
-        if d["TWIN"] == 3:
-            cap = 2_200_000 if d.get("ZERO_RTT") else 1_200_000
+        if d["TWIN"] == 3 and not d.get("ZERO_RTT") and d.get("LOSS", 0) != 1000:
+            cap = min(cap, 600_000)
         d["MAX_TIME"] = min(d.get("MAX_TIME", cap), cap)
         if d.get("IDLE_MS", 0) == 0 or d["IDLE_MS"] > 3000:
             d["IDLE_MS"] = rng.choice([1500, 3000])
